@@ -274,6 +274,22 @@ Theorem c12_av_text_none_refuted :
 Proof. exact text_none_refuted. Qed.
 Print Assumptions c12_av_text_none_refuted.
 
+(* open finding C12-F10: under xs:anyType set_text(None) keeps None as the text member (to_text is the identity); the
+   instance serialises like the empty value, parsing delivers the text "" - the bytes are stable, the object is not ... *)
+Theorem c12_av_anytype_none_refuted :
+  exists xa, av_build (Recipe VNone [] [] [OSetType "xs:anyType"; OSetText VNone]) = TOk xa None
+             /\ av_known_class [] xa None = 10
+             /\ o_text (harvest b_table 0%N (ser b_table (av_obj 0%N [] xa None))) = Some ""%string
+             /\ ser b_table (harvest b_table 0%N (ser b_table (av_obj 0%N [] xa None))) = ser b_table (av_obj 0%N [] xa None).
+Proof. exact anytype_none_refuted. Qed.
+Print Assumptions c12_av_anytype_none_refuted.
+
+(* ... and the class is exactly "text member None": NO document is parsed into an AttributeValue with text None *)
+Theorem c12_av_parse_text_some : forall T c ci t,
+  class_at T c = Some ci -> c_kind ci = KAttrValue -> o_text (harvest T c t) <> None.
+Proof. exact av_parse_text_some. Qed.
+Print Assumptions c12_av_parse_text_some.
+
 Theorem c12_av_ws_ext_refuted :
   exists e xa tx, av_ctor (VStr " a ") [e] [] = TOk xa tx /\ av_ws_ext [e] xa tx = true
                   /\ harvest b_table 0%N (ser b_table (av_obj 0%N [e] xa tx)) <> av_obj 0%N [e] xa tx.
